@@ -54,12 +54,15 @@ def _labels(case, g):
     return lab
 
 
-def _ip_call(G, lab, x, y, L, S):
+def _ip_call(G, lab, x, y, L, S, sets=None):
     """one inducing_path call with FRESH (equal, not identical) label objects as arguments"""
     from pywhy_graphs.algorithms import inducing_path
     try:
         wrap = frozenset if lab.family == "nested" else set
-        r = inducing_path(G, lab.fresh(x), lab.fresh(y), wrap(lab.fresh(v) for v in L), wrap(lab.fresh(v) for v in S))
+        if sets is not None:
+            r = inducing_path(G, lab.fresh(x), lab.fresh(y), sets[0], sets[1])
+        else:
+            r = inducing_path(G, lab.fresh(x), lab.fresh(y), wrap(lab.fresh(v) for v in L), wrap(lab.fresh(v) for v in S))
     except Exception as e:
         return {"ans": "err:" + type(e).__name__}
     if not (isinstance(r, tuple) and len(r) == 2 and (r[0] is True or r[0] is False)):
@@ -92,6 +95,20 @@ def impl(case):
                     _ip_call(G, lab, x, y, L, S)
         C.warmup(G, _warm)
     if k == "ip":
+        if C.warm_decide({"g": g, "x": case["x"], "y": case["y"], "k": "same-object"}, 3):
+            # the SAME set objects are first used for another query (L and S exchanged) and then changed in place:
+            # what counts is what the sets contain when the call is made
+            from pywhy_graphs.algorithms import inducing_path
+            Lo, So = {lab.fresh(v) for v in case["S"]}, {lab.fresh(v) for v in case["L"]}
+            try:
+                inducing_path(G, lab.fresh(case["x"]), lab.fresh(case["y"]), Lo, So)
+            except Exception:
+                pass
+            Lo.clear()
+            So.clear()
+            Lo.update(lab.fresh(v) for v in case["L"])
+            So.update(lab.fresh(v) for v in case["S"])
+            return _ip_call(G, lab, case["x"], case["y"], case["L"], case["S"], sets=(Lo, So))
         return _ip_call(G, lab, case["x"], case["y"], case["L"], case["S"])
     if k == "ipm":
         return [_ip_call(G, lab, x, y, L, S) for x, y, L, S in case["Q"]]
